@@ -144,6 +144,49 @@ def reply_shapes_scenario(name, transport):
             "tasks": [{"name": "router", "ops": rops}, {"name": "req", "ops": qops}, {"name": "dlr", "ops": dops}]}
 
 
+MANUAL_SHAPES = [[24], [24, 0, 24], [24, 24, 0], [0, 24], [0, 24, 0, 24], [24, 0], [24, 0, 0, 24]]
+
+
+def manual_delimiter_scenario(name, transport):
+    """AUTO_DELIMITER = 0 on the DEALER: the application owns the envelope, nothing is added on the way out.
+    The ROUTER may take one leading empty frame for the delimiter; every other frame arrives as sent."""
+    ep = S.endpoint(transport, name)
+    to = 2500
+    socks = [{"name": "router", "type": "ROUTER", "opts": [S.i32(S.RCVTIMEO, to), S.i32(S.SNDTIMEO, to)]},
+             {"name": "man", "type": "DEALER", "opts": [[S.ROUTING_ID, "str", "M"], S.i32(42, 0), S.i32(S.RCVTIMEO, to), S.i32(S.SNDTIMEO, to)]}]
+    rops = [{"op": "bind", "sock": "router", "ep": ep, "save": "ep"}, {"op": "barrier", "name": "go", "parties": 2}]
+    mops = [{"op": "barrier", "name": "go", "parties": 2}, {"op": "connect", "sock": "man", "ep": "$ep"}, {"op": "sleep", "ms": 250}]
+    for k, sh in enumerate(MANUAL_SHAPES, 1):
+        mops += [{"op": "send_mp", "sock": "man", "mid": "m:%d" % k, "sizes": sh, "timeout_ms": to}, {"op": "recv_mp", "sock": "man", "timeout_ms": to}]
+        rops += [{"op": "recv_mp", "sock": "router", "timeout_ms": to},
+                 {"op": "send_mp", "sock": "router", "mid": "e:%d" % k, "sizes": sh, "prefix_hex": [b"M".hex()], "timeout_ms": to}]
+    return {"name": name, "deadline_ms": 60000, "sockets": socks, "tasks": [{"name": "router", "ops": rops}, {"name": "man", "ops": mops}]}
+
+
+def check_manual(ctx, sc, r0):
+    rp = {"kind": "recorded-trace", "scenario": sc["name"], "records": [x for x in r0["records"] if x.get("ev") == "ret"][:120]}
+    if r0["panics"]:
+        ctx.violation("C11:panic", "%s: %s" % (sc["name"], r0["panics"][0]), rp)
+    def ok(sock, sent, got):
+        sent, got = list(sent), list(got)
+        if sock == "router":
+            # identity frame, then the payload; one leading empty frame may have been taken for the delimiter
+            return got[:1] == [1] and (got[1:] == sent or (sent[:1] == [0] and got[1:] == sent[1:]))
+        # raw wire frames: rzmq's ROUTER puts [identity, delimiter] (or just the delimiter) in front
+        return got in (sent, [0] + sent, [1, 0] + sent)
+    for sock, what in (("router", "the ROUTER received"), ("man", "the DEALER (AUTO_DELIMITER=0) received")):
+        got = [x for x in S.rets(r0, "recv_mp", sock=sock)]
+        for k, sh in enumerate(MANUAL_SHAPES):
+            x = got[k] if k < len(got) else {"res": "missing"}
+            if x.get("res") != "ok":
+                ctx.violation("C11:manual-missing:%s" % sock, "%s: message %d (frames %s): %s" % (sc["name"], k + 1, sh, x.get("res")), rp)
+                break
+            if not ok(sock, sh, x.get("sizes", [])):
+                ctx.violation("C11:manual-payload-changed:%s" % sock, "%s: frames of sizes %s were sent; %s %s - a payload frame other than one leading delimiter was added or removed" % (
+                    sc["name"], sh, what, x.get("sizes")), rp)
+                break
+
+
 def run(ctx):
     thorough = ctx.tier == "thorough"
     vlib.cargo_build()
@@ -182,6 +225,9 @@ def run(ctx):
     # replies of every envelope shape (empty frames first, last, only) to every kind of peer
     for tr in (["tcp", "ipc", "inproc"] if thorough else ["tcp"]):
         scs.append(reply_shapes_scenario("router-replies-%s" % tr, tr))
+    # AUTO_DELIMITER = 0: nothing but one leading delimiter may be touched
+    for tr in (["tcp", "ipc", "inproc"] if thorough else ["tcp", "inproc"]):
+        scs.append(manual_delimiter_scenario("router-manual-%s" % tr, tr))
     plain = [dict(s) for s in scs]
     for s in plain:
         s.pop("peers", None)
@@ -200,6 +246,8 @@ def run(ctx):
                         ctx.violation("C11:envelope-changed:%s" % peer, "%s: the ROUTER replied to its %s peer with frames of sizes %s; the peer received %s" % (
                             sc["name"], "REQ" if peer == "req" else "DEALER", sh, x.get("sizes") if x.get("res") == "ok" else x.get("res")), rp)
                         break
+        elif sc["name"].startswith("router-manual"):
+            check_manual(ctx, sc, r0)
         elif sc["name"].startswith("router-reconnect"):
             rp = {"kind": "recorded-trace", "scenario": sc["name"], "records": [x for x in r0["records"] if x.get("ev") == "ret"]}
             d2 = [x for x in S.rets(r0, "recv_mp", sock="d2") if x.get("res") == "ok"]
